@@ -12,28 +12,29 @@
    [spec_after p pre] is the specification's book-keeping after the history [pre]: per timer the time it was last
    armed (s_t0: creation, reset, or last firing of a persistent timer), its interval (s_iv), persistence (s_p) and
    whether it is alive (s_alive: registered, no unregistration requested, a one-shot has not fired yet).
-   All theorems quantify over every program, every start time, every arrival script, every schedule and every
-   number of ticks; the only hypothesis is that the TIMEOUT constant has a positive denominator. *)
+     LRereg i t           timer i, out of the tree, was registered again at t
+   All theorems quantify over every program, every start time, every arrival script, every schedule of simultaneous
+   firings ([sch]), every order in which the task set is iterated ([tsch]) and every number of ticks; the only hypothesis is that the TIMEOUT constant has a positive denominator. *)
 From Coq Require Import List ZArith Bool.
 From Circ Require Import Model.Timers Proofs.TimersP.
 Import ListNotations.
 Open Scope Z_scope.
 
-Definition hist (p : prog) (t0 : Z) (sts : list (Z * bool * nat)) (sch : list nat) (n : nat) : list lrec :=
-  history (fst (run p (init t0 sts sch) n)).
+Definition hist (p : prog) (t0 : Z) (sts : list (Z * bool * nat)) (sch tsch : list nat) (n : nat) : list lrec :=
+  history (fst (run p (init t0 sts sch tsch) n)).
 
 (* every run is accepted by the specification monitor (which checks, at every iteration: nobody fires twice, only
    alive timers whose interval has elapsed fire, every alive timer that is due fires, a wait happens only when
    nothing fired and does not pass the expiry of any alive timer), and the monitor's book-keeping agrees with the
    timers' own fields at the end *)
-Theorem C09_run_conforms : forall p, 0 < p_tmo_den p -> forall t0 sts sch n,
-  spec_after p (hist p t0 sts sch n) = Some (map abs (timers (fst (run p (init t0 sts sch) n)))).
+Theorem C09_run_conforms : forall p, 0 < p_tmo_den p -> forall t0 sts sch tsch n,
+  spec_after p (hist p t0 sts sch tsch n) = Some (map abs (timers (fst (run p (init t0 sts sch tsch) n)))).
 Proof. exact run_conforms. Qed.
 Print Assumptions C09_run_conforms.
 
 (* never early: a timer that fires at t is alive and was armed at some t0 with t0 + interval <= t *)
-Theorem C09_not_early : forall p, 0 < p_tmo_den p -> forall t0 sts sch n pre t fired w post i,
-  hist p t0 sts sch n = pre ++ LIter t fired w :: post -> In i fired ->
+Theorem C09_not_early : forall p, 0 < p_tmo_den p -> forall t0 sts sch tsch n pre t fired w post i,
+  hist p t0 sts sch tsch n = pre ++ LIter t fired w :: post -> In i fired ->
   exists ms x, spec_after p pre = Some ms /\ nth_error ms i = Some x /\
                s_alive x = true /\ s_t0 x + s_iv x <= t.
 Proof. exact not_early. Qed.
@@ -41,8 +42,8 @@ Print Assumptions C09_not_early.
 
 (* the first firing after creation is not before creation time + interval; a datetime deadline counts at
    whole-second resolution: the timer is armed for floorsec(deadline) *)
-Theorem C09_first_firing : forall p, 0 < p_tmo_den p -> forall t0 sts sch n pre tc iv pp dl mid t fired w post ms,
-  hist p t0 sts sch n = pre ++ LCreate tc iv pp dl :: mid ++ LIter t fired w :: post ->
+Theorem C09_first_firing : forall p, 0 < p_tmo_den p -> forall t0 sts sch tsch n pre tc iv pp dl mid t fired w post ms,
+  hist p t0 sts sch tsch n = pre ++ LCreate tc iv pp dl :: mid ++ LIter t fired w :: post ->
   spec_after p pre = Some ms ->
   In (length ms) fired -> (forall e, In e mid -> touches (length ms) e = false) ->
   tc + iv <= t /\ match dl with Some d => tc + iv = floorsec d | None => True end.
@@ -53,38 +54,38 @@ Theorem C09_datetime_whole_seconds : forall d, floorsec d <= d < floorsec d + UN
 Proof. exact floorsec_le. Qed.
 Print Assumptions C09_datetime_whole_seconds.
 
-(* a one-shot timer fires at most once, in any run *)
-Theorem C09_oneshot_once : forall p, 0 < p_tmo_den p -> forall t0 sts sch n pre t fired w post ms i x,
-  hist p t0 sts sch n = pre ++ LIter t fired w :: post ->
+(* a one-shot timer fires at most once, in any run (unless the program registers it again after its removal) *)
+Theorem C09_oneshot_once : forall p, 0 < p_tmo_den p -> forall t0 sts sch tsch n pre t fired w mid t' fired' w' post ms i x,
+  hist p t0 sts sch tsch n = pre ++ LIter t fired w :: mid ++ LIter t' fired' w' :: post ->
   In i fired -> spec_after p pre = Some ms -> nth_error ms i = Some x -> s_p x = false ->
-  forall t' fired' w', In (LIter t' fired' w') post -> ~ In i fired'.
+  (forall r, In r mid -> is_rereg i r = false) -> ~ In i fired'.
 Proof. exact oneshot_once. Qed.
 Print Assumptions C09_oneshot_once.
 
-Theorem C09_fires_once_per_iteration : forall p, 0 < p_tmo_den p -> forall t0 sts sch n pre t fired w post,
-  hist p t0 sts sch n = pre ++ LIter t fired w :: post -> NoDup fired.
+Theorem C09_fires_once_per_iteration : forall p, 0 < p_tmo_den p -> forall t0 sts sch tsch n pre t fired w post,
+  hist p t0 sts sch tsch n = pre ++ LIter t fired w :: post -> NoDup fired.
 Proof. exact fired_nodup. Qed.
 Print Assumptions C09_fires_once_per_iteration.
 
 (* consecutive firings of a persistent timer are at least one interval apart *)
-Theorem C09_persistent_gap : forall p, 0 < p_tmo_den p -> forall t0 sts sch n pre t1 f1 w1 mid t2 f2 w2 post ms i x,
-  hist p t0 sts sch n = pre ++ LIter t1 f1 w1 :: mid ++ LIter t2 f2 w2 :: post ->
+Theorem C09_persistent_gap : forall p, 0 < p_tmo_den p -> forall t0 sts sch tsch n pre t1 f1 w1 mid t2 f2 w2 post ms i x,
+  hist p t0 sts sch tsch n = pre ++ LIter t1 f1 w1 :: mid ++ LIter t2 f2 w2 :: post ->
   In i f1 -> In i f2 -> (forall r, In r mid -> touches i r = false) ->
   spec_after p pre = Some ms -> nth_error ms i = Some x -> s_p x = true ->
   t1 + s_iv x <= t2.
 Proof. exact persistent_gap. Qed.
 Print Assumptions C09_persistent_gap.
 
-(* once unregistration of a timer has been requested it never fires again *)
-Theorem C09_unregistered_silent : forall p, 0 < p_tmo_den p -> forall t0 sts sch n pre i t post,
-  hist p t0 sts sch n = pre ++ LUnreq i t :: post ->
-  forall t' fired w, In (LIter t' fired w) post -> ~ In i fired.
+(* once unregistration of a timer has been requested it never fires again (unless registered again) *)
+Theorem C09_unregistered_silent : forall p, 0 < p_tmo_den p -> forall t0 sts sch tsch n pre i t mid t' fired w post,
+  hist p t0 sts sch tsch n = pre ++ LUnreq i t :: mid ++ LIter t' fired w :: post ->
+  (forall r, In r mid -> is_rereg i r = false) -> ~ In i fired.
 Proof. exact unregistered_silent. Qed.
 Print Assumptions C09_unregistered_silent.
 
 (* reset() restarts the countdown: the next firing is at least one (new) interval after the reset *)
-Theorem C09_reset : forall p, 0 < p_tmo_den p -> forall t0 sts sch n pre i r niv mid t fired w post ms x,
-  hist p t0 sts sch n = pre ++ LReset i r niv :: mid ++ LIter t fired w :: post ->
+Theorem C09_reset : forall p, 0 < p_tmo_den p -> forall t0 sts sch tsch n pre i r niv mid t fired w post ms x,
+  hist p t0 sts sch tsch n = pre ++ LReset i r niv :: mid ++ LIter t fired w :: post ->
   In i fired -> (forall e, In e mid -> touches i e = false) ->
   spec_after p pre = Some ms -> nth_error ms i = Some x ->
   r + (match niv with Some v => v | None => s_iv x end) <= t.
@@ -93,8 +94,8 @@ Print Assumptions C09_reset.
 
 (* sleep bound: the loop waits only when nothing fired, and the wait it asks for ends no later than the expiry of any
    alive timer (in particular it is not unbounded while a timer is pending) *)
-Theorem C09_sleep_bound : forall p, 0 < p_tmo_den p -> forall t0 sts sch n pre t fired w post,
-  hist p t0 sts sch n = pre ++ LIter t fired (Some w) :: post ->
+Theorem C09_sleep_bound : forall p, 0 < p_tmo_den p -> forall t0 sts sch tsch n pre t fired w post,
+  hist p t0 sts sch tsch n = pre ++ LIter t fired (Some w) :: post ->
   fired = [] /\
   forall ms i x, spec_after p pre = Some ms -> nth_error ms i = Some x -> s_alive x = true ->
     exists d, dur (p_tmo_num p) (p_tmo_den p) w = Some d /\ t + d <= s_t0 x + s_iv x.
@@ -108,30 +109,47 @@ Print Assumptions C09_wait_ends.
 
 (* a due timer fires in the first loop iteration at or after its expiry: in every iteration, every alive timer whose
    interval has elapsed fires *)
-Theorem C09_due_fires : forall p, 0 < p_tmo_den p -> forall t0 sts sch n pre t fired w post ms i x,
-  hist p t0 sts sch n = pre ++ LIter t fired w :: post ->
+Theorem C09_due_fires : forall p, 0 < p_tmo_den p -> forall t0 sts sch tsch n pre t fired w post ms i x,
+  hist p t0 sts sch tsch n = pre ++ LIter t fired w :: post ->
   spec_after p pre = Some ms -> nth_error ms i = Some x -> s_alive x = true -> s_t0 x + s_iv x <= t ->
   In i fired.
 Proof. exact due_fires. Qed.
 Print Assumptions C09_due_fires.
 
-(* "then removes itself": a one-shot that fires requests its own removal in the same handler call (its event and its
-   prepare_unregister are queued, the timer carries the pending flag) ... *)
+(* "then removes itself", for every run: if a one-shot timer has fired anywhere in the history of the first n ticks
+   and the program never registers it again ([prog_ok i p]: no script contains OReReg i), then two ticks later it is
+   out of the component tree ([Gone]: not registered, no removal pending).  With n = the tick in which it fired: out
+   by iteration n+2.  No hypothesis about the state: the invariant "every pending timer has its prepare_unregister
+   or the completion event queued" is proved for all runs. *)
+Theorem C09_oneshot_removed : forall p, 0 < p_tmo_den p -> forall t0 sts sch tsch n i pre t fired w post ms x,
+  prog_ok i p ->
+  hist p t0 sts sch tsch n = pre ++ LIter t fired w :: post -> In i fired ->
+  spec_after p pre = Some ms -> nth_error ms i = Some x -> s_p x = false ->
+  (forall r, In r post -> is_rereg i r = false) ->
+  Gone (tick p (tick p (fst (run p (init t0 sts sch tsch) n)))) i.
+Proof. exact oneshot_removed. Qed.
+Print Assumptions C09_oneshot_removed.
+
+(* likewise a timer whose unregistration was requested *)
+Theorem C09_unregistered_removed : forall p, 0 < p_tmo_den p -> forall t0 sts sch tsch n i pre t post,
+  prog_ok i p ->
+  hist p t0 sts sch tsch n = pre ++ LUnreq i t :: post -> (forall r, In r post -> is_rereg i r = false) ->
+  Gone (tick p (tick p (fst (run p (init t0 sts sch tsch) n)))) i.
+Proof. exact unregistered_removed. Qed.
+Print Assumptions C09_unregistered_removed.
+
+(* and it stays out (in states whose tasks run only steps of such a program, e.g. all states of a run) *)
+Theorem C09_gone_stays : forall i p s, prog_ok i p -> tasks_ok i s -> Gone s i -> Gone (tick p s) i.
+Proof. exact gone_stays. Qed.
+Print Assumptions C09_gone_stays.
+
+(* what starts the removal, for every state: a one-shot that fires queues its event and its prepare_unregister and
+   carries the pending flag *)
 Theorem C09_oneshot_starts_removal : forall s i tm, nth_error (timers s) i = Some tm -> t_persist tm = false ->
   t_reg tm && negb (t_pend tm) = true ->
   In (ETimer i) (queue (fire_timer s i)) /\ In (EPrep i) (queue (fire_timer s i)) /\ PG (fire_timer s i) i.
 Proof. exact oneshot_fire_starts. Qed.
 Print Assumptions C09_oneshot_starts_removal.
-
-(* ... and from any state in which prepare_unregister(timer i) is queued and the timer is pending (or already out), two
-   ticks later the timer is out of the component tree, whatever else happens in those ticks; it stays out. *)
-Theorem C09_removal_completes : forall p s i, In (EPrep i) (queue s) -> PG s i -> Gone (tick p (tick p s)) i.
-Proof. exact removal_completes. Qed.
-Print Assumptions C09_removal_completes.
-
-Theorem C09_gone_stays : forall p s i, Gone s i -> Gone (tick p s) i.
-Proof. exact gone_stays. Qed.
-Print Assumptions C09_gone_stays.
 
 (* ---------------------------------------------------------------- non-vacuity *)
 
@@ -147,7 +165,7 @@ Example C09_ex_den : 0 < p_tmo_den ex_prog.
 Proof. reflexivity. Qed.
 
 Example C09_ex_history :
-  hist ex_prog 4096 [(4096, false, 0%nat)] [] 12 =
+  hist ex_prog 4096 [(4096, false, 0%nat)] [] [] 12 =
   [ LCreate 4096 2048 false None; LCreate 4096 768 true None;
     LIter 4096 [] None; LIter 4096 [] (Some (Fin 768));
     LIter 4864 [1%nat] None; LDisp 1 4864; LIter 4864 [] (Some (Fin 768));
@@ -172,7 +190,7 @@ Proof. vm_compute. repeat split; discriminate. Qed.
 (* the hypotheses of the gap / reset / first-firing theorems are satisfiable on the example run *)
 Example C09_ex_gap :
   exists pre mid post ms x,
-    hist ex_prog 4096 [(4096, false, 0%nat)] [] 12 =
+    hist ex_prog 4096 [(4096, false, 0%nat)] [] [] 12 =
       pre ++ LIter 4864 [1%nat] None :: mid ++ LIter 5632 [1%nat] None :: post /\
     (forall r, In r mid -> touches 1 r = false) /\
     spec_after ex_prog pre = Some ms /\ nth_error ms 1 = Some x /\ s_p x = true /\ s_iv x = 768.
@@ -186,7 +204,7 @@ Qed.
 
 (* the example run ends with the one-shot (timer 0) out of the tree and the persistent one still registered *)
 Example C09_ex_removed :
-  map (fun tm => (t_reg tm, t_pend tm)) (timers (fst (run ex_prog (init 4096 [(4096, false, 0%nat)] []) 12)))
+  map (fun tm => (t_reg tm, t_pend tm)) (timers (fst (run ex_prog (init 4096 [(4096, false, 0%nat)] [] []) 12)))
   = [(false, false); (true, false)].
 Proof. vm_compute. reflexivity. Qed.
 
@@ -197,10 +215,65 @@ Definition ex_prog2 : prog :=
   mkProg [[OCreate 1024 true]; [OReset 0]; [OUnreg 0]] [] [] tmo_num tmo_den.
 
 Example C09_ex_reset_unregister :
-  hist ex_prog2 4096 [(4096, false, 0%nat); (4600, false, 1%nat); (7000, false, 2%nat)] [] 16 =
+  hist ex_prog2 4096 [(4096, false, 0%nat); (4600, false, 1%nat); (7000, false, 2%nat)] [] [] 16 =
   [ LCreate 4096 1024 true None; LIter 4096 [] None; LIter 4096 [] (Some (Fin 1024));
     LReset 0 4600 None; LIter 4600 [] (Some (Fin 1024));
     LIter 5624 [0%nat] None; LDisp 0 5624; LIter 5624 [] (Some (Fin 1024));
     LIter 6648 [0%nat] None; LDisp 0 6648; LIter 6648 [] (Some (Fin 1024));
     LUnreq 0 7000; LIter 7000 [] None; LIter 7000 [] None; LIter 7000 [] None; LIter 7000 [] (Some Inf) ].
 Proof. vm_compute. reflexivity. Qed.
+
+(* "gap >= interval" is tight, and a late tick delays all later firings (no catch-up is promised): a persistent 1 s
+   timer, and a handler that keeps the loop busy from 5000 to 6500, over the expiry 5120.  The timer fires at 6500 and
+   then at 7524, 8548, ... — consecutive firings exactly one interval apart, every one 1380 units later than the
+   5120 + k * 1024 of an undisturbed run. *)
+Definition ex_late : prog := mkProg [[OCreate 1024 true]; [OWork 1500]] [] [] tmo_num tmo_den.
+
+Example C09_ex_gap_tight :
+  hist ex_late 4096 [(4096, false, 0%nat); (5000, false, 1%nat)] [] [] 8 =
+  [ LCreate 4096 1024 true None; LIter 4096 [] None; LIter 4096 [] (Some (Fin 1024));
+    LIter 6500 [0%nat] None; LDisp 0 6500; LIter 6500 [] (Some (Fin 1024));
+    LIter 7524 [0%nat] None; LDisp 0 7524; LIter 7524 [] (Some (Fin 1024));
+    LIter 8548 [0%nat] None; LDisp 0 8548; LIter 8548 [] (Some (Fin 1024)) ].
+Proof. vm_compute. reflexivity. Qed.
+
+(* registering a removed one-shot again does not re-arm it: it keeps its old expiry and fires at once (6000), a second
+   time in its second life; reset() on a timer outside the tree has no effect on the loop (it waits without bound) *)
+Definition ex_rereg : prog := mkProg [[OCreate 512 false]; [OReReg 0]; [OReset 0]] [] [] tmo_num tmo_den.
+
+Example C09_ex_reregister :
+  hist ex_rereg 4096 [(4096, false, 0%nat); (6000, false, 1%nat); (7000, false, 2%nat)] [] [] 20 =
+  [ LCreate 4096 512 false None; LIter 4096 [] None; LIter 4096 [] (Some (Fin 512));
+    LIter 4608 [0%nat] None; LDisp 0 4608; LIter 4608 [] None; LIter 4608 [] None; LIter 4608 [] (Some Inf);
+    LRereg 0 6000; LIter 6000 [0%nat] None; LDisp 0 6000; LIter 6000 [] None; LIter 6000 [] None;
+    LIter 6000 [] (Some Inf); LReset 0 7000 None; LIter 7000 [] (Some Inf) ].
+Proof. vm_compute. reflexivity. Qed.
+
+(* two generator tasks alive at once: the order in which the task set is iterated (the [tsch] argument) changes when
+   the timer is reset and hence when it fires (4699 vs 4696); the theorems hold for every order *)
+Definition ex_tasks : prog :=
+  mkProg [[OCreate 300 false]] [] [[GOps [OWork 200]; GYield; GOps [OReset 0]]; [GOps [OReset 0]; GYield]] tmo_num tmo_den.
+
+Example C09_ex_task_order :
+  let sts := [(4096, false, 0%nat); (4096, true, 0%nat); (4096, true, 1%nat)] in
+  In (LIter 4699 [0%nat] None) (hist ex_tasks 4096 sts [] [] 8) /\
+  In (LIter 4696 [0%nat] None) (hist ex_tasks 4096 sts [] [1; 0; 0; 1]%nat 8).
+Proof. vm_compute. split; intuition. Qed.
+
+(* the hypotheses of C09_oneshot_removed hold on the first example: its program never registers anything again, the
+   one-shot (timer 0) fires in the 7th tick (it is then pending removal), and two ticks later it is out of the tree *)
+Example C09_ex_prog_ok : forall i, prog_ok i ex_prog.
+Proof.
+  intros i. repeat split; simpl; intros l H;
+    repeat (destruct H as [H | H]; [subst; intros o Ho; simpl in Ho;
+                                    repeat (destruct Ho as [Ho | Ho]; [subst; reflexivity|]); contradiction |]);
+    contradiction.
+Qed.
+
+Example C09_ex_oneshot_removed :
+  In (LIter 6144 [0%nat] None) (hist ex_prog 4096 [(4096, false, 0%nat)] [] [] 7) /\
+  map (fun tm => (t_reg tm, t_pend tm)) (timers (fst (run ex_prog (init 4096 [(4096, false, 0%nat)] [] []) 7)))
+    = [(true, true); (true, false)] /\
+  map (fun tm => (t_reg tm, t_pend tm)) (timers (fst (run ex_prog (init 4096 [(4096, false, 0%nat)] [] []) 9)))
+    = [(false, false); (true, false)].
+Proof. vm_compute. repeat split; intuition. Qed.
